@@ -231,6 +231,9 @@ def run(ctx):
                 tags = ['derive-not-total', 'root-repeated-ext']
             ctx.fail(f'derive() of the viterbi derivation: total log-weight {w} (assignment total: {total}), maximum {b}', case, w, str(b),
                      tags=tags)
+    # the patterned Viterbi einsum that fills the tables (model Ve.vitEinsum, theorems C04.vitEinsum_out / vitEinsum_ptrOk)
+    from .c07 import run_viteinsum_model
+    run_viteinsum_model(ctx, 60 if ctx.quick else 1200)
 
 
 def replay(ctx, rep):
